@@ -243,14 +243,15 @@ func (e *Eval) Walk(b, prev *ssa.BasicBlock, stop func(*ssa.BasicBlock) bool, ma
 		forked  int
 		steps   int
 		path    []*ssa.BasicBlock
+		forked0 bool // entered through a fork: the stop predicate applies to its first block too
 	}
-	work := []state{{b, prev, e.Env.clone(), 0, 0, nil}}
+	work := []state{{b, prev, e.Env.clone(), 0, 0, nil, false}}
 	for len(work) > 0 {
 		st := work[len(work)-1]
 		work = work[:len(work)-1]
 		cur := &Eval{Env: st.env, Tables: e.Tables, Pure: e.Pure, depth: e.depth}
 		b, prev := st.b, st.prev
-		first := true
+		first := !st.forked0
 		for {
 			st.steps++
 			if st.steps > 600 {
@@ -316,7 +317,7 @@ func (e *Eval) Walk(b, prev *ssa.BasicBlock, stop func(*ssa.BasicBlock) bool, ma
 						return nil, fmt.Errorf("condition %s in block %d of %s is not evaluable (fork budget %d used)", t.Cond, b.Index, b.Parent().Name(), maxFork)
 					}
 					// fork: false branch queued, true branch continued
-					work = append(work, state{b.Succs[1], b, cur.Env.clone(), st.forked + 1, st.steps, append([]*ssa.BasicBlock{}, st.path...)})
+					work = append(work, state{b.Succs[1], b, cur.Env.clone(), st.forked + 1, st.steps, append([]*ssa.BasicBlock{}, st.path...), true})
 					st.forked++
 					prev, b = b, b.Succs[0]
 				}
